@@ -14,16 +14,16 @@ OF = "TopKindsOF"
 RUNS = {
     "tiny": ('Uniform({"hello", "flow_mod", "packet_out", "srep_flow", "actions"}) \\cup Outputs(0)', "AroundBoth"),
     # quick tier
-    "q_uniform": ("Uniform(%s) \\cup Empty(%s) \\cup Outputs(0)" % (OF, OF), "AroundBoth"),
+    "q_uniform": ("Uniform(%s) \\cup Empty(%s) \\cup Outputs(0) \\cup NXUniform(TopKindsNX)" % (OF, OF), "AroundBoth"),
     "q_dev": ("Deviations(%s \\ StatsKinds)" % OF, "AroundOne"),
     "q_dev_stats": ("Deviations(StatsKinds)", "AroundOne"),
     "q_shapes": ("Payloads({0, 1, 2, 7, 8, 9, 1499, 1500}) \\cup ListsOf(1) \\cup Counts(0..3)", "AroundOne"),
-    "q_match": ('MatchIn("match", MFlagsAll(0) \\cup MBits(BitsQ) \\cup MTypes(0) \\cup MVals(0), "all") \\cup '
-                'MatchIn("flow_mod", MFlags2(0) \\cup MBits(BitsQ) \\cup MTypes(0) \\cup MVals(0), "q") \\cup '
+    "q_match": ('MatchIn("match", MFlags2(0) \\cup MFlagsCo(2) \\cup MBits(BitsQ) \\cup MTypes(0) \\cup MVals(0), "q") \\cup '
+                'MatchIn("flow_mod", MFlags2(0) \\cup MFlagsCo(2) \\cup MBits(BitsQ) \\cup MTypes(0) \\cup MVals(0), "q") \\cup '
                 'UNION {MatchIn(k, MFlags1(0) \\cup MTypes(0), "q") : k \\in MatchKinds \\ {"match", "flow_mod"}}',
                 "AroundOne"),
     "q_mod": ("Modified(0) \\cup NXModified(0)", "AroundOne"),
-    "q_nx": ("NXUniform(TopKindsNX) \\cup NXDeviations(TopKindsNX) \\cup NXShapes({0, 1, 2, 3, 4, 5})", "AroundBoth"),
+    "q_nx": ("NXDeviations(TopKindsNX) \\cup NXShapes({0, 1, 2, 3, 4, 5})", "AroundOne"),
     "q_nxm": ("NXEntries(0) \\cup NXRegs(0)", "AroundOne"),
     # thorough tier (in addition)
     "t_pairs": ("Pairs(%s)" % OF, "AroundOne"),
@@ -31,7 +31,7 @@ RUNS = {
                  "\\cup ListsOf(2) \\cup Counts(0..6)", "AroundOne"),
     "t_match_fm": ('MatchIn("flow_mod", MFlagsAll(0) \\cup MBits(BitsT) \\cup MTypes(0) \\cup MVals(0), "t")', "AroundBoth"),
     "t_match_other": ('UNION {MatchIn(k, MFlagsAll(0) \\cup MBits(BitsT) \\cup MTypes(0) \\cup MVals(0), "t") : '
-                      'k \\in MatchKinds \\ {"match", "flow_mod"}}', "AroundOne"),
+                      'k \\in MatchKinds \\ {"flow_mod"}}', "AroundOne"),
     "t_long": ("Longest(0)", "AroundOne"),
     "t_nx": ("NXPairs(TopKindsNX) \\cup NXShapes(0..9) \\cup NXEntriesT(0)", "AroundOne"),
 }
